@@ -98,6 +98,7 @@ func SpecCutReplace(entry, match, replacement string) string {
 //@   tags C06 C17 C19
 //@   opt scan-complete C17
 //@   checks[C06] every-exclude-file-is-processed: rangeIndex0 == len(excludeFileNames)
+//@   loop 0 body[C06] each-exclude-file-is-parsed: called(parseFile) && argOf(parseFile, 1) == fileName
 //@   loop 0 invariant[C06] 0 <= rangeIndex0 && rangeIndex0 <= len(excludeFileNames)
 //@   loop 1 invariant[C06] 0 <= scanPos(scanner) && scanPos(scanner) <= len(scanLines(scanner))
 //@   loop 1 invariant[C06] forallStr(func(k string) bool { return mapHas(includeMap, k) == (atLoopEntry(mapHas(includeMap, k)) && forall(0, scanPos(scanner), func(j int) bool { return scanLines(scanner)[j] != k })) })
